@@ -204,7 +204,7 @@ func (d *mapDecoder) DecodePath(ctx *RuntimeContext, cursor, depth int64) ([][]b
 			return nil, 0, err
 		}
 		cursor += 4
-		return [][]byte{nullbytes}, cursor, nil
+		return [][]byte{[]byte(`null`)}, cursor, nil
 	case '{':
 	default:
 		return nil, 0, errors.ErrExpected("{ character for map value", cursor)
@@ -245,10 +245,10 @@ func (d *mapDecoder) DecodePath(ctx *RuntimeContext, cursor, depth int64) ([][]b
 				oldPath := ctx.Option.Path.node
 				ctx.Option.Path.node = child
 				paths, c, err := d.valueDecoder.DecodePath(ctx, cursor, depth)
+				ctx.Option.Path.node = oldPath
 				if err != nil {
 					return nil, 0, err
 				}
-				ctx.Option.Path.node = oldPath
 				ret = append(ret, paths...)
 				cursor = c
 			} else {
